@@ -73,6 +73,16 @@ var predicates = map[string]func(v *mon.Violation, f *Finding) bool{
 		me, ok := f.Params["max_excess"].(float64)
 		return ok && v.Case.Def >= 2 && v.Case.Def <= 5 && v.Metric > 0 && v.Metric <= me
 	},
+	// the rounding mode in effect (explicit mode argument, else DefaultRoundingMode) is a directed one and the
+	// error exceeds the tolerance by at most params.max_excess (in units of the tolerance)
+	"directed_rounding_small_excess": func(v *mon.Violation, f *Finding) bool {
+		me, ok := f.Params["max_excess"].(float64)
+		m := v.Case.Mode
+		if m < 0 {
+			m = v.Case.Def
+		}
+		return ok && m >= 2 && m <= 5 && v.Metric > 0 && v.Metric <= me
+	},
 	// the first Decimal operand is a negative zero (any exponent)
 	"operand0_is_negative_zero": func(v *mon.Violation, f *Finding) bool {
 		n, ok := operand(&v.Case, 0)
